@@ -51,7 +51,9 @@ pub fn power_cron_queue(vm: &Vm) -> BTreeMap<ChainEpoch, Vec<(ActorID, Vec<u8>)>
     .unwrap();
     let mut out: BTreeMap<ChainEpoch, Vec<(ActorID, Vec<u8>)>> = BTreeMap::new();
     q.for_all::<_, CronEvent>(|k, arr| {
-        let e = parse_uint_key(k).unwrap() as i64;
+        // keys are signed (zig-zag) varints of the epoch
+        let z = parse_uint_key(k).unwrap();
+        let e = ((z >> 1) as i64) ^ -((z & 1) as i64);
         arr.for_each(|_, ev| {
             out.entry(e)
                 .or_default()
